@@ -1,0 +1,27 @@
+//go:build verif
+
+package responseassembler
+
+import (
+	"github.com/libp2p/go-libp2p/core/peer"
+)
+
+// VerifTrackerSizes exposes the sizes of the per-peer link tracking maps (verification hook, build
+// tag verif): main tracker maps (missing, traversed, refcounts), number of alternate trackers, the
+// summed sizes of their maps, and the sizes of the dedup-key, sent-count and skip-count maps.
+func VerifTrackerSizes(ra *ResponseAssembler, p peer.ID) [8]int {
+	prs := ra.GetProcess(p).(*peerLinkTracker)
+	prs.linkTrackerLk.RLock()
+	defer prs.linkTrackerLk.RUnlock()
+	var out [8]int
+	out[0], out[1], out[2] = prs.linkTracker.VerifSizes()
+	out[3] = len(prs.altTrackers)
+	for _, t := range prs.altTrackers {
+		a, b, c := t.VerifSizes()
+		out[4] += a + b + c
+	}
+	out[5] = len(prs.dedupKeys)
+	out[6] = len(prs.blockSentCount)
+	out[7] = len(prs.skipFirstBlocks)
+	return out
+}
